@@ -214,6 +214,15 @@ class TermDomain(Domain):
         return T("un", (type(op).__name__, freeze(val)))
 
     def compare(self, interp, node, vals):
+        # constants compare as in Python (`axis == "y"` with the default axis)
+        if len(vals) == 2 and len(node.ops) == 1 and all(isinstance(v, Const) for v in vals):
+            import operator as _op
+            fn = {ast.Eq: _op.eq, ast.NotEq: _op.ne, ast.Lt: _op.lt, ast.LtE: _op.le, ast.Gt: _op.gt, ast.GtE: _op.ge}.get(type(node.ops[0]))
+            if fn is not None:
+                try:
+                    return Const(bool(fn(vals[0].value, vals[1].value)))
+                except Exception:
+                    return TOP
         return TOP
 
     def boolop(self, interp, node, vals):
